@@ -137,19 +137,26 @@ CLAIMED.update({
 
 CLAIMED.update({
  "C08": dict(category="other",
-    text="Proof for the field validators only: check_or_raise_id accepts exactly the ints (not bools) in 0..2^53, "
-         "check_or_raise_uri accepts exactly the strings of the WAMP URI grammar for each of the six option combinations "
-         "(strict/loose x plain / empty components / empty last component) and None iff allowed, "
-         "check_or_raise_realm_name exactly its grammar; each returns its argument or raises only ProtocolError / "
-         "InvalidUriError for every value of every scalar type. The languages of the real `re` patterns are taken from "
-         "CPython's own pattern parser (incl. `$` and Unicode \\d / \\s semantics) and compared by z3 with spec languages "
-         "built from the WAMP specification text. Counterexamples are replayed on the real functions against a "
-         "regex-free reference. The 25 per-class parse() functions, Serializer.unserialize and check_or_raise_extra / "
-         "_validate_kwargs are NOT under contract yet (they need the dynamic-value encoding): the property is decided "
-         "for the validators only.",
-    note="Trusted: z3's regular-expression and string theory, pyvc, CPython's re._parser as the definition of the pattern "
-         "language; characters above U+2FFFF are outside z3's range.",
-    technique="contract-based deductive verification: AST->VC, Python regex -> z3 regex via CPython's parse tree, z3"),
+    text="Validators: check_or_raise_id accepts exactly the ints (not bools) in 0..2^53, check_or_raise_uri exactly the strings "
+         "of the WAMP URI grammar for each of the six option combinations (and None iff allowed), check_or_raise_realm_name "
+         "exactly its grammar, check_or_raise_extra / _validate_kwargs exactly the dicts with string keys; each raises only "
+         "ProtocolError / InvalidUriError for a value of any JSON / CBOR type. The languages of the real `re` patterns come "
+         "from CPython's own pattern parser and are compared by z3 with spec languages built from the WAMP text. "
+         "parse(): for 23 of the 25 message classes the real parse() and the real constructor are executed symbolically on "
+         "an untrusted wmsg -- a list of unknown length whose elements are, independently, any scalar, list or dict, the "
+         "option dict holding any value under each key the class reads (a read of any other key is refused by the engine) "
+         "and any further keys: parse() returns or raises ProtocolError / InvalidUriError, never anything else (no "
+         "constructor assertion is reachable, no IndexError / KeyError / TypeError), and a returned message has ids in "
+         "0..2^53, URIs of the grammar, options of the declared types, white / black lists and forward_for chains valid "
+         "element by element (loop invariants, unbounded), every field equal to the input's. Hello / Welcome: a bounded "
+         "enumeration on the real code stands in (labelled bounded). Counterexamples are rebuilt as Python structures and "
+         "handed to the real parse(); for an accepted message the failed clause is evaluated natively on the real objects.",
+    note="Trusted: z3 (strings, regular expressions, quantifier instantiation for the list invariants), pyvc, CPython's "
+         "re._parser as the definition of the pattern language (characters above U+2FFFF outside z3's range); a "
+         "deserialized value is int / bool / str / None / float / bytes / list / dict. Not covered (level 'other'): "
+         "Serializer.unserialize (envelope, dispatch, exception wrapping), arbitrary octets through the third-party "
+         "codecs, Hello / Welcome beyond the stated bound, role.py.",
+    technique="contract-based deductive verification: AST->VC with untrusted list/dict value types, loop invariants, Python regex -> z3 regex via CPython's parse tree, z3; bounded enumeration for two classes"),
 })
 
 CLAIMED.update({
